@@ -21,7 +21,7 @@ Qed.
 Definition env_spike (m : spike_method) (st ft : option Q) (xs : list obs) : env :=
   {| e_arr := bind_arr [("inp", xs); ("diff", spike_diff m xs)];
      e_num := bind_num [("suspect_threshold", st); ("fail_threshold", ft)];
-     e_str := bind_str [("method", method_name m)];
+     e_str := bind_str [("method", method_name m)]; e_bool := (fun _ => None);
      e_size := length xs |}.
 
 Lemma spike_diff_length m xs : length (spike_diff m xs) = length xs.
